@@ -3,6 +3,7 @@ import CfbVerif.Props.C06
 import CfbVerif.Dir.Slots
 import CfbVerif.Phys.Content
 import CfbVerif.Phys.MiniContent
+import CfbVerif.Phys.RootReach
 /-!
 # C07 — open handles stay bound to their stream and never touch other objects
 
@@ -181,6 +182,19 @@ mini chain — names a mini sector inside the mini stream's chain -/
 theorem C07_mini_range {p : Phys.P} (fit : Phys.MiniFit p) (hc : Phys.rootCoverB p = true) {root : List Nat}
     (hroot : Phys.chainIds p p.rootStart = .ok root) {m : Nat} (hm : m < p.miniFat.size) : m / p.per < root.length :=
   Phys.mini_in_root fit hc hroot hm
+
+/-- **… and in every state the store machine reaches that premise is a theorem** (`Phys/RootCap.lean`,
+`Phys/RootReach.lean`, 900 lines: the invariant `RootI` — the mini stream's chain covers the root entry's length,
+which is a multiple of 64 — through every allocation-level operation; the mini stream only grows after
+`ensureRootRoom` has made room, releases only shorten the length, and the chain is never cut because nothing
+that is freed lies on it): for every history of store operations and reopens from a fresh file of either
+version, every cell of the in-memory MiniFAT names a mini sector inside the mini stream's chain -/
+theorem C07_mini_range_reachable (v4 : Bool) (ops : List Phys.GOp) :
+    let g0 : Phys.G := { p := Phys.create v4, L := fun _ => 0 }
+    Phys.WritesInRange g0 ops → Phys.MiniBounded g0 ops → (Phys.grun g0 ops).p.fat.size ≤ Raw.MAXREG + 1 →
+    ∀ (root : List Nat), Phys.chainIds (Phys.grun g0 ops).p (Phys.grun g0 ops).p.rootStart = .ok root →
+    ∀ m, m < (Phys.grun g0 ops).p.miniFat.size → m / (Phys.grun g0 ops).p.per < root.length :=
+  Phys.mini_range_reachable v4 ops
 
 /-- non-vacuity: a version-3 file whose mini stream is the one-sector chain [2] (eight mini sectors);
 the mini chain [5, 1, 6] of a 150-byte stream, 100 bytes written across two mini-sector boundaries
